@@ -79,7 +79,7 @@ theorem C01_up_to_date_is_clean {P : Program} (hP : P.WF) {evs : List Event} {s 
     simp only [step] at hup; split at hup
     · cases hup; exact hnd
     · cases hup
-  have hi' := step_inv hP hup hi hnd'
+  have hi' := step_inv hP hup hi (reach_invC hP hrun hnd) hnd'
   apply hi'.clean
   simp only [step] at hup; split at hup
   · cases hup; simp
